@@ -21,6 +21,7 @@ type vChainRPC struct {
 	// last gettxout answer
 	lastConfs uint32
 	answered  bool
+	asks      int // gettxout calls
 }
 
 func (c *vChainRPC) GetBlockHeight() (uint64, error) {
@@ -30,6 +31,7 @@ func (c *vChainRPC) GetBlockHeight() (uint64, error) {
 	return uint64(zzverif.U32("rpc.height")), nil
 }
 func (c *vChainRPC) GetTxOut(txid string, vout uint32) (*txwatcher.TxOutResp, error) {
+	c.asks++
 	c.w.yieldPoint("rpc")
 	if c.gate != nil {
 		// both goroutines stop here (one holds the watcher lock, the other the swap mutex) until both arrived
@@ -65,8 +67,9 @@ func vRealWatcherScenario(st StateType) (*vScenario, *txwatcher.BlockchainRpcTxW
 	rpc := &vChainRPC{w: sc.env.w}
 	wt := txwatcher.NewBlockchainRpcTxWatcher(context.Background(), rpc, 3)
 	sc.env.services.bitcoinTxWatcher = wt
-	wt.AddConfirmationCallback(sc.svc.OnTxConfirmed)
-	wt.AddCsvCallback(sc.svc.OnCsvPassed)
+	// (through sc.svc: after a restart the callbacks reach the service of the new process, as Start() wires them)
+	wt.AddConfirmationCallback(func(id, hex string, err error) error { return sc.svc.OnTxConfirmed(id, hex, err) })
+	wt.AddCsvCallback(func(id string) error { return sc.svc.OnCsvPassed(id) })
 	return sc, wt, rpc
 }
 
@@ -110,6 +113,31 @@ func H_C18_restartAfterCsvMatured_NoPanic() {
 	// a message of the peer are handled to the end, nobody waits for a lock recovery left behind
 	zzverif.Concurrently(func() { sc.svc.OnCsvPassed(sc.id) })
 	zzverif.Assert(zzverif.Blocked() == 0, "C18.recovered_swap_handles_csv_notification")
+}
+
+// H_C18_csvNotificationSurvivesRecovery_NoPanic: a maker restarted while it waits for the CSV, with the real
+// rpc watcher (which checks the output once right at registration, on its own goroutine, every chain answer
+// arbitrary): the notification cannot get lost between the registration and the swap becoming active.  After
+// the recovery the maker is either past the wait (the matured CSV was acted on) or it is still watched: the
+// next block makes the watcher ask the chain about the swap's output again, and a mature answer then leads to
+// the refund.
+func H_C18_csvNotificationSurvivesRecovery_NoPanic() {
+	sc, wt, rpc := vRealWatcherScenario(State_WaitCsv)
+	sc.logicalNested = true
+	sc.env.store.nativeDelay = 50 * time.Millisecond
+	sc.vApply(stRestart)
+	zzverif.Reach("c18.recovered_with_real_watcher")
+	zzverif.Assert(zzverif.Blocked() == 0, "C18.registration_check_is_not_left_blocked")
+	if sc.vCurrent() == State_WaitCsv {
+		asks0 := rpc.asks
+		rpc.answered = false
+		wt.HandleCsvTx(uint64(zzverif.U32("block")))
+		zzverif.Assert(rpc.asks > asks0, "C18.waiting_maker_is_still_watched_after_recovery")
+		if rpc.answered && rpc.lastConfs >= 1008 {
+			post := sc.vCurrent()
+			zzverif.Assert(post == State_ClaimedCsv || post == State_SwapInSender_ClaimSwapCsv || post == State_SwapOutReceiver_ClaimSwapCsv, "C18.matured_csv_after_recovery_leads_to_refund")
+		}
+	}
 }
 
 // H_C18_recoveredWaitingSwapTakesEvents_NoPanic: every waiting state a swap can be restarted in: after the
